@@ -44,6 +44,8 @@ impl<'a> Lexer<'a> {
     }
 
     fn next_token(&mut self) -> TokenKind {
+        #[cfg(feature = "verif")]
+        crate::verif::step();
         let start = self.s.cursor();
         match self.s.eat() {
             Some(c) if c.is_whitespace() => self.whitespace(),
